@@ -63,6 +63,14 @@ DEVIATIONS = {
     "OpenRecomputesMeta": ("cat", False),
     "IdsFileDropsLast": ("cat", False),
 }
+# deviations the real code showed when this check was written (conformance run: the model with
+# these deviations is compared case by case with the real code; informational, never a verdict)
+AS_IMPLEMENTED = {
+    "hdf": ["NamesZippedWithPresent"],
+    "cfg": ["CustomDictHasGenKeys", "EndpointsInexact", "ModifyDropsCosmology", "ModifyCustomRaises"],
+    "txt": ["LoadtxtSqueeze"],
+}
+
 # the kind of finding the real code would show if it had the deviation
 DEV_SIGNATURE = {
     "SparseBySum": "counts_differ", "SkipAllZeroMember": "members_differ", "NoTruncate": "CorrFunc",
@@ -79,6 +87,13 @@ BENIGN = {"ModifyCustomRaises": "cfg"}
 def consts(kind, *, dev="{}", bins=2, patches=2, samples=2, rich=False, overwrite=False):
     return dict(Kind=f'"{kind}"', Deviations=dev, MaxBins=bins, MaxPatches=patches, MaxSamples=samples,
                 Rich="TRUE" if rich else "FALSE", Overwrite="TRUE" if overwrite else "FALSE")
+
+
+def initial_states(res) -> int:
+    import re
+
+    m = re.search(r"Finished computing initial states: (\d+) distinct state", res.out)
+    return int(m.group(1)) if m else -1
 
 
 def tlc_job(kind, c, invariants=INVS, coverage=True):
@@ -111,13 +126,14 @@ class Case:
         self.objs = [dict(o) for o in tup[0]]
         self.proj, self.got, self.outcome, self.prec = tup[1], tup[2], tup[3], tup[4]
         self.contents = tup[5] if len(tup) > 5 else None
+        self.holds = bool(tup[6]) if len(tup) > 6 else True
 
     @property
     def obj(self):
         return self.objs[-1]
 
     def to_json(self):
-        return dict(kind=self.kind, case=jsonable([self.objs, self.proj, self.got, self.outcome, self.prec, self.contents]))
+        return dict(kind=self.kind, case=jsonable([self.objs, self.proj, self.got, self.outcome, self.prec, self.contents, self.holds]))
 
     @classmethod
     def from_json(cls, d):
@@ -243,7 +259,7 @@ def hdf_sample(cf):
         cm.__exit__(None, None, None)
 
 
-def run_hdf(yaw, root, case, rng, tamper=None):
+def run_hdf(yaw, root, case, rng, tamper=None, deep=False):
     findings, drift = [], []
     path = root / "cf.hdf"
     jitter = rng.random() * 1e-3
@@ -296,7 +312,34 @@ def run_hdf(yaw, root, case, rng, tamper=None):
         sx, sy = hdf_sample(x), hdf_sample(y)
         if sx[0] != sy[0] or (sx[0] == "raises" and sx[1] != sy[1]) or (sx[0] == "ok" and not (arr_eq(sx[1], sy[1]) and arr_eq(sx[2], sy[2]))):
             findings.append(Finding("C11|CorrFunc.hdf|sample()|downstream_differs", original=str(sx[:2]), read=str(sy[:2])))
+    if deep or rng.random() < 0.2:
+        run_hdf_parts(yaw, root, x, content, findings)
     return findings, drift
+
+
+def run_hdf_parts(yaw, root, x, content, findings):
+    """The containers inside a CorrFunc are HdfSerializable on their own:
+    NormalisedCounts, PatchedCounts, PatchedSumWeights, Binning."""
+    nc = x.dd
+    cls = hdf_class(content["dd"]["nz"])
+    for name, obj, same in (
+        ("NormalisedCounts", nc, lambda a, b: arr_eq(a.counts.counts, b.counts.counts) and arr_eq(a.sum_weights.sum_weights1, b.sum_weights.sum_weights1)
+         and arr_eq(a.sum_weights.sum_weights2, b.sum_weights.sum_weights2) and bool(a.auto) == bool(b.auto) and np.array_equal(a.binning.edges, b.binning.edges)
+         and str(a.binning.closed) == str(b.binning.closed)),
+        ("PatchedCounts", nc.counts, lambda a, b: arr_eq(a.counts, b.counts) and bool(a.auto) == bool(b.auto) and np.array_equal(a.binning.edges, b.binning.edges)),
+        ("PatchedSumWeights", nc.sum_weights, lambda a, b: arr_eq(a.sum_weights1, b.sum_weights1) and arr_eq(a.sum_weights2, b.sum_weights2) and bool(a.auto) == bool(b.auto)),
+        ("Binning", nc.binning, lambda a, b: np.array_equal(a.edges, b.edges) and str(a.closed) == str(b.closed)),
+    ):
+        path = root / f"{name}.hdf"
+        icls = f"counts:{cls}" if "Counts" in name else (f"sum_weights:{content['dd']['sw']}" if name == "PatchedSumWeights" else f"closed={obj.closed}")
+        try:
+            obj.to_file(path)
+            back = type(obj).from_file(path)
+        except Exception as e:  # noqa: BLE001
+            findings.append(Finding(f"C11|{name}.hdf|{icls}|raises_{exc_name(e)}", error=repr(e)))
+            continue
+        if not same(obj, back):
+            findings.append(Finding(f"C11|{name}.hdf|{icls}|differs"))
 
 
 def hdf_tamper(path):
@@ -478,7 +521,13 @@ def run_cfg(yaw, root, case, rng, tamper=None):
     sx, sy = x.scales, y.scales
     if not (arr_eq(sx.scales.scale_min, sy.scales.scale_min) and arr_eq(sx.scales.scale_max, sy.scales.scale_max) and sx.unit == sy.unit
             and sx.rweight == sy.rweight and sx.resolution == sy.resolution and type(sx.scales) is type(sy.scales)):
-        findings.append(Finding(f"C11|Configuration.yaml|unit={o['unit']},scales={o['scales']}|scales_differ", written=sx.to_dict(), read=sy.to_dict()))
+        if sx.unit != sy.unit or type(sx.scales) is not type(sy.scales):
+            part = f"unit={o['unit']}"
+        elif sx.rweight != sy.rweight or sx.resolution != sy.resolution:
+            part = "rweight/resolution"
+        else:
+            part = f"rmin/rmax:{o['scales']}"
+        findings.append(Finding(f"C11|Configuration.yaml|{part}|scales_differ", written=sx.to_dict(), read=sy.to_dict()))
     if not cosmology_is_equal(x.cosmology, y.cosmology):
         findings.append(Finding(f"C11|Configuration.yaml|cosmology={o['cosmo']}|cosmology_differs"))
     if x.max_workers != y.max_workers:
@@ -624,7 +673,7 @@ def run_txt(yaw, root, case, rng, tamper=None, vary=False):
                 vc = o["scls"] if special else "small"
                 findings.append(Finding(f"{ep}|samples:{vc}|value_differs_beyond_format_precision", bin=b, sample=s,
                                         written=float(x.samples[s, b]), read=float(y.samples[s, b]), decimals=dec))
-    # a second generation must be a fixed point of the format (downstream use of the files)
+    # a second generation should be a fixed point of the format (recorded as drift only)
     if not findings:
         cm = quiet()
         try:
@@ -632,7 +681,7 @@ def run_txt(yaw, root, case, rng, tamper=None, vary=False):
                 y.to_files(root / "prod2")
             z = type(y).from_files(root / "prod2")
             if not (arr_eq(z.data, y.data) and arr_eq(z.samples, y.samples) and np.array_equal(z.binning.edges, y.binning.edges)):
-                findings.append(Finding(f"{ep}|reread|second_generation_differs"))
+                drift.append(("C11|txt_second_generation_not_a_fixed_point", dict(obj=o)))  # more than the property states
         except Exception as e:  # noqa: BLE001
             findings.append(Finding(f"{ep}|reread|raises_{exc_name(e)}", error=repr(e)))
         finally:
@@ -701,7 +750,7 @@ def run_meta(yaw, root, case, rng, tamper=None):
     except Exception as e:  # noqa: BLE001
         return [Finding(f"C11|Metadata.from_file|sum_weights={o['sw']}|raises_{exc_name(e)}", error=repr(e), file=path.read_text())], drift
     dx, dy = meta_digest(x), meta_digest(y)
-    for field, icls in (("num_records", o["nrec"]), ("sum_weights", o["sw"]), ("center", f"{o['ra']}/{o['dec']}"), ("radius", o["rad"])):
+    for field, icls in (("num_records", o["nrec"]), ("sum_weights", o["sw"]), ("center", "any"), ("radius", o["rad"])):
         if dx[field] != dy[field]:
             findings.append(Finding(f"C11|Metadata.yaml|{field}={icls}|{field}_differs", written=str(dx[field]), read=str(dy[field])))
     return findings, drift
@@ -786,10 +835,10 @@ def run_cat(yaw, root, case, rng, tamper=None):
         got.append(np.column_stack([rec[name] for name in rec.dtype.names]))
         if o["mode"] == "column":
             sel = want[df["pid"].to_numpy() == k]
-            if not np.array_equal(np.sort(sel, axis=0), np.sort(got[-1], axis=0)):
+            if sel.shape != got[-1].shape or not np.allclose(np.sort(sel, axis=0), np.sort(got[-1], axis=0), rtol=0, atol=1e-12):
                 findings.append(Finding(f"C11|Catalog.cache|{cls}|records_differ_from_input", patch=int(k)))
     got = np.concatenate(got)
-    if got.shape != want.shape or not np.array_equal(got[np.lexsort(got.T[::-1])], want[np.lexsort(want.T[::-1])]):
+    if got.shape != want.shape or not np.allclose(np.sort(got, axis=0), np.sort(want, axis=0), rtol=0, atol=1e-12):
         findings.append(Finding(f"C11|Catalog.cache|{cls}|records_differ_from_input"))
     ctr = case.got["ctr"] if isinstance(case.got, dict) and "ctr" in case.got else None
     if ctr == "given" and not np.array_equal(c2.get_centers().data, centers.data):
@@ -856,6 +905,8 @@ def replay_cases(ctx, yaw, root, kind, cases, rng, stats, **kw):
         st = stats.setdefault(kind, dict(behaviours=0, with_findings=0, model_outcomes={}))
         st["behaviours"] += 1
         st["with_findings"] += bool(findings)
+        real_bad = stats.setdefault("_real_bad", {}).setdefault(kind, {})
+        real_bad[okey(case.objs)] = sorted({f.key for f in findings if "__eq__" not in f.key})
         st["model_outcomes"][case.outcome] = st["model_outcomes"].get(case.outcome, 0) + 1
     stats[kind]["replay_wall_s"] = round(stats[kind].get("replay_wall_s", 0) + time.time() - t0, 2)
 
@@ -971,15 +1022,20 @@ def run(ctx) -> None:
             kw = over[kind] if ow else devc[kind]
             c = consts(kind, dev='{"%s"}' % dev, overwrite=ow, **kw)
             jobs.append(("deviation", kind, dev, kw, pool.submit(tlc_job, kind, c, ["RoundTrip"], False)))
+        for kind, devs in AS_IMPLEMENTED.items():
+            c = consts(kind, dev="{" + ", ".join('"%s"' % d for d in devs) + "}", **ideal[kind])
+            jobs.append(("as_implemented", kind, None, ideal[kind], pool.submit(tlc_job, kind, c, ["TypeOK", "PrintDone"], False)))
         for dev, kind in BENIGN.items():
             jobs.append(("benign", kind, dev, {}, pool.submit(tlc_job, kind, consts(kind, dev='{"%s"}' % dev), ["TypeOK", "RoundTrip"], False)))
 
         with scratch("c11_") as root:
             cex = []
             deferred = []
+            as_impl = {}
 
             def replay_group(what, kind, cases):
-                replay_cases(ctx, yaw, root, kind, cases, rng, stats, **(dict(vary=True) if kind == "txt" and not quick else {}))
+                kw2 = dict(vary=True) if kind == "txt" and not quick else (dict(deep=True) if kind == "hdf" and not quick else {})
+                replay_cases(ctx, yaw, root, kind, cases, rng, stats, **kw2)
                 if what == "ideal":
                     ctx.extra.setdefault("binding_demonstrations", {})[kind] = binding_demo(ctx, yaw, root, kind, cases, rng)
                     for c in cases[:: max(1, len(cases) // 2)][:1]:
@@ -997,7 +1053,9 @@ def run(ctx) -> None:
                         if k2 != kind:
                             ctx.require(all(res.coverage.get(a, (0, 0))[1] == 0 for a in acts), f"{label}: action of kind {k2} taken")
                     cases = [Case(kind, t) for t in res.printed("case")]
-                    ctx.require(len(cases) == res.coverage["Init"][1], f"{label}: {len(cases)} terminal states printed for {res.coverage['Init'][1]} initial states")
+                    ninit = initial_states(res)
+                    ctx.require(len(cases) == ninit and len({okey(c.objs) for c in cases}) == ninit,
+                                f"{label}: {len(cases)} terminal states printed for {ninit} initial states")
                     index.setdefault((kind, what == "overwrite"), {}).update({okey(c.objs): c for c in cases})
                     if kind == "hdf":
                         # HDF5 files are flock'ed: a TLC child forked by the pool while a file is open would
@@ -1005,6 +1063,9 @@ def run(ctx) -> None:
                         deferred.append((what, kind, cases))
                     else:
                         replay_group(what, kind, cases)
+                elif what == "as_implemented":
+                    ctx.require(res.ok, f"{label}: TLC error {res.error_kind}")
+                    as_impl[kind] = {okey(t[0]): bool(t[6]) for t in res.printed("case")}
                 elif what == "deviation":
                     ctx.require(not res.ok and res.error_name == "RoundTrip", f"deviation {dev} no longer yields a counterexample (stale model)")
                     cex.append((kind, dev, res.trace[-1]["state"], len(res.trace)))
@@ -1028,4 +1089,15 @@ def run(ctx) -> None:
             ctx.extra["deviation_counterexamples_replayed"] = dev_out
     finally:
         pool.shutdown(wait=True, cancel_futures=True)
+    real_bad = stats.pop("_real_bad", {})
+    conf = {}
+    for kind, pred in as_impl.items():
+        rb = real_bad.get(kind, {})
+        both = [k for k, holds in pred.items() if not holds and rb.get(k)]
+        model_only = [k for k, holds in pred.items() if not holds and k in rb and not rb[k]]
+        code_only = [k for k, holds in pred.items() if holds and rb.get(k)]
+        conf[kind] = dict(deviations=AS_IMPLEMENTED[kind], cases=len(pred), model_and_code_fail=len(both),
+                          model_only_fails=len(model_only), code_only_fails=len(code_only),
+                          sample_model_only=[json.loads(k) for k in model_only[:2]], sample_code_only=[json.loads(k) for k in code_only[:2]])
+    ctx.extra["as_implemented_model_vs_code"] = conf
     ctx.extra["replayed"] = stats
